@@ -8,5 +8,6 @@ mkdir -p tools/bin run evidence replays coq/gen
 cp /repo/go.sum tools/harness/go.sum
 (cd tools/harness && go build -o ../bin/harness .)
 tools/bin/go2coq -repo /repo -out coq/gen || true
-(cd coq && coq_makefile -f _CoqProject -o Makefile >/dev/null && timeout 3000 make -j16 >/dev/null 2>run_make.log || (tail -50 run_make.log; exit 1))
+# -k: a file that does not build is reported by the checks that depend on it, not by the setup
+(cd coq && coq_makefile -f _CoqProject -o Makefile >/dev/null && (timeout 3000 make -k -j16 >/dev/null 2>run_make.log || (tail -20 run_make.log; true)))
 echo setup done
